@@ -15,13 +15,13 @@ import (
 
 // Emitted is what go/parser finds in an emitted package.
 type Emitted struct {
-	Dir      string
-	Files    []string
-	Pkg      map[string]string // file -> package clause
-	Consts   map[string]string // const name -> string value
-	Funcs    map[string]*ast.FuncDecl // "Name" or "Recv.Name"
-	FileOf   map[string]string
-	Fset     *token.FileSet
+	Dir    string
+	Files  []string
+	Pkg    map[string]string        // file -> package clause
+	Consts map[string]string        // const name -> string value
+	Funcs  map[string]*ast.FuncDecl // "Name" or "Recv.Name"
+	FileOf map[string]string
+	Fset   *token.FileSet
 }
 
 func ParseEmitted(dir string) (*Emitted, error) {
